@@ -18,20 +18,20 @@ func init() {
 	register(&Check{
 		ID:    "C03",
 		Title: "Proof bytes are a deterministic, spec-conformant function of the inputs",
-		Rule: "a seed-determined list of opening sets (n in {1,2,3,4,5,7,8,9,11,12,16,17,31,33,48,64,100,257,300}, ten index patterns incl. all indices different from z_0, >=11 openings so that more than 1024 bytes are pending in the transcript, all polynomial kinds, equal polynomials) and IPA instances (in-domain and out-of-domain points) is proven in every child " +
+		Rule: "a seed-determined list of opening sets (n in {1,2,3,4,5,7,8,9,11,12,16,17,31,33,48,64,100,257,300}, ten index patterns incl. all indices different from z_0, >=11 openings so that more than 1024 bytes are pending in the transcript, all polynomial kinds, equal polynomials; exactly 255/256/2x256/2x384 openings at one evaluation point; 4099 openings) and IPA instances (in-domain and out-of-domain points) is proven in every child " +
 			"(NumCPU {1,3,8,16} x GOMAXPROCS {1,4}; thorough 1..16 x {1,2,4,16}) two to four times each: two case orders and immediate repetitions, each with a different commitment representation/pointer pattern and H7 delay seed; digests of (proof bytes, next transcript challenge) must agree within the child and - compared by the driver - across all children; " +
-			"a tier-sized share of the cases is also proven by the independent reference prover and compared byte for byte; a class is (n class, index pattern, polynomial mix, NumCPU, GOMAXPROCS, execution slot); non-trivial = n >= 2 or IPA instance",
+			"half of the children call GenerateRandomPoints (fewer / more points than a configuration needs, checked against the reference CRS) before the process creates its first configuration; a tier-sized share of the cases is also proven by the independent reference prover and compared byte for byte; a class is (n class, index pattern, polynomial mix, NumCPU, GOMAXPROCS, execution slot); non-trivial = n >= 2 or IPA instance",
 		Technique:        "differential runtime monitor across configurations/schedules/representations/history positions (digests compared by the driver) + byte-for-byte comparison with an independent reference prover (math/big)",
 		MinEvals:         map[string]int64{"quick": 700, "thorough": 15000},
 		MinClasses:       map[string]int64{"quick": 200, "thorough": 1500},
-		RequiredCounters: []string{"cases_compared_across_configs", "proofs_equal_to_reference_prover", "ipa_proofs_equal_to_reference_prover", "hook.multiproof.group.send", "cases_over_1024_pending_bytes"},
+		RequiredCounters: []string{"cases_compared_across_configs", "proofs_equal_to_reference_prover", "ipa_proofs_equal_to_reference_prover", "hook.multiproof.group.send", "cases_over_1024_pending_bytes", "children_with_calls_before_first_configuration"},
 		Assumptions:      []string{"the reference prover reproduces both published proof vectors (544-byte IPA proof, 576-byte multiproof) and their transcript states", "NumCPU above 16 cannot be produced here"},
 		Plan: func(tier string) []Child {
 			var out []Child
 			if tier == "quick" {
 				cfg := [][2]int{{1, 1}, {1, 4}, {3, 1}, {3, 64}, {16, 4}, {8, 1}}
 				for i, k := range cfg {
-					out = append(out, Child{Flavour: "plain", NCPU: k[0], GOMAXPROCS: k[1], Shard: i, NShards: len(cfg), Params: map[string]string{"sched": fmt.Sprint(1 + i%2)}})
+					out = append(out, Child{Flavour: "plain", NCPU: k[0], GOMAXPROCS: k[1], Shard: i, NShards: len(cfg), Params: map[string]string{"sched": fmt.Sprint(1 + i%2), "prelude": fmt.Sprint(i % 4)}})
 				}
 				return out
 			}
@@ -48,7 +48,7 @@ func init() {
 			for w := 1; w <= 16; w++ {
 				for _, g := range []int{1, 2, 4, 16} {
 					if (w+g)%3 == 0 || w == 1 || w == 16 {
-						out = append(out, Child{Flavour: "plain", NCPU: w, GOMAXPROCS: g, Shard: i, NShards: total, Params: map[string]string{"sched": fmt.Sprint(i % 3)}})
+						out = append(out, Child{Flavour: "plain", NCPU: w, GOMAXPROCS: g, Shard: i, NShards: total, Params: map[string]string{"sched": fmt.Sprint(i % 3), "prelude": fmt.Sprint(i % 4)}})
 						i++
 					}
 				}
@@ -97,6 +97,17 @@ func c03cases(thorough bool) []c03case {
 		c03case{id: "multi/all-constant/zero", n: 2, pat: 1, forceKind: 1, alwaysRef: true},
 		c03case{id: "multi/constant-and-random", n: 4, pat: 1, forceKind: -1, alwaysRef: true},
 		c03case{id: "multi/all-constant/b", n: 5, pat: 9, forceKind: 4, alwaysRef: true})
+	// multiplicities: exactly 255 / 256 / 512 openings at one evaluation point (per-point counters, per-point batches), and a
+	// statement beyond 4096 openings (powers of r, chunked helpers), not a multiple of any small task count
+	out = append(out,
+		c03case{id: "multi/multiplicity/256-at-one-point", n: 256, pat: 0, alwaysRef: true},
+		c03case{id: "multi/multiplicity/255-at-255", n: 255, pat: 4, alwaysRef: true},
+		c03case{id: "multi/multiplicity/2x256", n: 512, pat: 2, alwaysRef: true},
+		c03case{id: "multi/multiplicity/2x384", n: 768, pat: 3},
+		c03case{id: "multi/large/4099", n: 4099, pat: 7, alwaysRef: true})
+	if thorough {
+		out = append(out, c03case{id: "multi/large/65537", n: 65537, pat: 9, alwaysRef: true}) // beyond 16-bit counts
+	}
 	r := ref.R
 	names := []string{"0", "255", "256", "2101", "r-1", "2^200"}
 	zs := []*big.Int{big.NewInt(0), big.NewInt(255), big.NewInt(256), big.NewInt(2101), new(big.Int).Sub(r, bigOne), new(big.Int).Lsh(bigOne, 200)}
@@ -107,6 +118,18 @@ func c03cases(thorough bool) []c03case {
 }
 
 func runC03(c *mon.Ctx) {
+	// what the process did before it created its configuration must not matter: some children ask for basis points first
+	pk := 0
+	fmt.Sscan(c.Config["prelude"], &pk)
+	c.Case("prelude", func() {
+		desc, failure := ColdPrelude(pk, c.Rand("prelude"))
+		if failure != "" {
+			c.Fail("wrong-result/GenerateRandomPoints", failure+" ("+desc+")", nil)
+		}
+		if pk%4 != 0 {
+			c.Count("children_with_calls_before_first_configuration", 1)
+		}
+	})
 	env := GetEnv()
 	w, gmp := runtime.NumCPU(), runtime.GOMAXPROCS(0)
 	mode := 1
@@ -178,7 +201,7 @@ func runC03(c *mon.Ctx) {
 				if len(s.label)+cs.n*99 > 1024 && slot == 0 {
 					c.Count("cases_over_1024_pending_bytes", 1)
 				}
-				if slot == 0 && cs.n <= 64 && ((c03index(cases, cs.id)%refEvery == 0 && c.Mine(c03index(cases, cs.id)/refEvery)) || (cs.alwaysRef && c.Mine(c03index(cases, cs.id)))) {
+				if slot == 0 && (cs.n <= 64 || cs.alwaysRef) && ((c03index(cases, cs.id)%refEvery == 0 && c.Mine(c03index(cases, cs.id)/refEvery)) || (cs.alwaysRef && c.Mine(c03index(cases, cs.id)))) {
 					rtr := ref.NewTranscript(s.label)
 					rp := env.Ref.ProveMulti(rtr, s.refCs(), s.refFs(), s.refZs())
 					rch := rtr.ChallengeScalar([]byte("state"))
